@@ -194,7 +194,7 @@ Cls(rows, r) == LET m == {x \in Range(rows) : x[1] = r} IN IF m = {} THEN <<r, "
 \* CorrectPastBeacons returned (or is stuck): store read back before and after
 StepCorrected(e) ==
   /\ e.ev = "Corrected"
-  /\ LET rep == Range(e.reported)
+  /\ LET rep == Range(e.reported) \cap TRounds      \* (a round beyond the fabricated chain cannot be read back)
          pre == [r \in TRounds |-> <<Cls(e.pre, r)[2], Cls(e.pre, r)[3]>>]
          post == [r \in TRounds |-> <<Cls(e.post, r)[2], Cls(e.post, r)[3]>>]
          postc == [r \in TRounds |-> post[r][1]]
